@@ -228,6 +228,13 @@ func c19Data(seed int64, nrec int, v6 bool, poisonAt int, bare bool) (*entities.
 				els = append(els, entities.NewUnsigned8InfoElement(ie("ipClassOfService", I), uint8(r.Uint32())))
 			}
 		}
+		if r.IntN(6) == 0 {
+			// ... and an element no registry knows, as a collecting process in "keep unknown" mode hands
+			// it over: a nameless octet array - anywhere in the record, in front of mapped fields too
+			unk := entities.NewOctetArrayInfoElement(entities.NewInfoElement("", uint16(20000+r.IntN(100)), entities.OctetArray, 12345, 4), []byte{1, 2, 3, 4})
+			at := r.IntN(len(els) + 1)
+			els = append(els[:at], append([]entities.InfoElementWithValue{unk}, els[at:]...)...)
+		}
 		set.AddRecord(els, 256)
 		recs = append(recs, c)
 	}
